@@ -513,7 +513,7 @@ obj->{PY_type_dtor} = idtor;""",
         output.append("// Wrap pointer to struct/class.")
         output.append(proto)
         output.append("{+")
-        self._create_splicer("to_object", output, to_object)
+        self._create_splicer("to_object_idtor", output, to_object)
         output.append("-}")
 
         ########################################
